@@ -98,7 +98,7 @@ fn script_for(u: &Unit) -> String {
 }
 
 macro_rules! run_pairs {
-    ($t:ty, $ret:ty, $pkg:expr, $dom:expr, $cx:expr) => {{
+    ($t:ty, $ret:ty, $pkg:expr, $dom:expr, $zero_div_only_with:expr, $cx:expr) => {{
         let f: TypedFunc<NoCtx, fn($t, $t) -> $ret> = match $pkg.get_function("f") {
             Ok(f) => f,
             Err(e) => {
@@ -107,10 +107,20 @@ macro_rules! run_pairs {
             }
         };
         let dom: &Vec<i128> = $dom;
+        let zero_div_only_with: &Option<Vec<i128>> = $zero_div_only_with;
         let mut h: u64 = 0;
         let mut n: u64 = 0;
+        let mut not_run: u64 = 0;
         for (ia, a) in dom.iter().enumerate() {
             for (ib, b) in dom.iter().enumerate() {
+                if *b == 0 {
+                    if let Some(bd) = zero_div_only_with {
+                        if !bd.contains(a) {
+                            not_run += 1;
+                            continue;
+                        }
+                    }
+                }
                 let sub = ((ia as u64) << 32) | ib as u64;
                 if !$cx.case(sub) {
                     continue;
@@ -123,6 +133,9 @@ macro_rules! run_pairs {
         $cx.transitions(n);
         $cx.validated(n);
         $cx.outcome(h);
+        if not_run > 0 {
+            $cx.count("zero_divisor_pairs_not_run", not_run);
+        }
     }};
 }
 
@@ -149,9 +162,21 @@ fn run_arith(u: &Unit, cx: &mut Cx) {
     cx.sample(json!({"script": src, "operand_pairs": dom.len() * dom.len(),
                       "first": [dom[0].to_string(), dom[0].to_string()]}));
     let is_cmp = ["==", "!=", "<", "<=", ">", ">="].contains(&op);
+    // Every pair (a, 0) of a dividing operator traps (known finding) and each
+    // trap costs a worker process and a re-run of the unit up to that pair.
+    // Where the domain is the full 16-bit range (thorough) the divisor 0 is
+    // therefore paired with the boundary dividends only (the trap does not
+    // depend on the dividend); all other pairs run. 65 536 deaths per unit
+    // would also exceed vcore's cap of 5 000 deaths per unit.
+    let zero_div_only_with: Option<Vec<i128>> =
+        (["/", "%", "/=", "%="].contains(&op) && dom.len() > 256).then(|| boundary(ty));
     macro_rules! go {
         ($t:ty) => {
-            if is_cmp { run_pairs!($t, bool, pkg, &dom, cx) } else { run_pairs!($t, $t, pkg, &dom, cx) }
+            if is_cmp {
+                run_pairs!($t, bool, pkg, &dom, &zero_div_only_with, cx)
+            } else {
+                run_pairs!($t, $t, pkg, &dom, &zero_div_only_with, cx)
+            }
         };
     }
     match ty {
@@ -225,7 +250,7 @@ impl Check for C10 {
     }
     fn meta(&self, cfg: &Cfg) -> Meta {
         Meta {
-            rule: "every (operator, integer type) unit runs on every operand pair of its domain (all 2^16 pairs for 8-bit types; boundary cross product for wider types; thorough: all 2^32 pairs for 16-bit types); every built-in runs on the cross product of its per-parameter edge domains. A unit (one compiled script) is non-trivial by construction; distinct_nontrivial counts distinct scripts".into(),
+            rule: "every (operator, integer type) unit runs on every operand pair of its domain (all 2^16 pairs for 8-bit types; boundary cross product for wider types; thorough: all 2^32 pairs for 16-bit types, except that the divisor 0 of / % /= %= is paired with the boundary dividends only — the trap does not depend on the dividend and each one costs a worker process; counters.zero_divisor_pairs_not_run); every built-in runs on the cross product of its per-parameter edge domains. A unit (one compiled script) is non-trivial by construction; distinct_nontrivial counts distinct scripts".into(),
             assumptions: vec![
                 "x86-64 Cranelift backend of this sandbox".into(),
                 "resource exhaustion excluded by construction (repeat counts <= 3, no loops)".into(),
